@@ -229,6 +229,10 @@ def _run_tool(tool, path, out, pooled=True):
         from amr_kitchen.combine import combine
         combine(PlotfileCooker(path), PlotfileCooker(path), vars1=["u"], vars2=["w"], pltout=out)
         return alpha.tree_digest(out)
+    if tool == "chk2plt":
+        from amr_kitchen.chk2plt import chk2plt
+        chk2plt(path, species=["H2", "O2"], gradp=True, species_reactions=True, pltdir=out)
+        return alpha.tree_digest(out)
     if tool == "pestle":
         from amr_kitchen import PlotfileCooker
         from amr_kitchen.pestle import volume_integral
@@ -249,6 +253,16 @@ def run_tool_history(chk, sc, cfgseed, tool):
         ap = gamma.make_ap("A", FIELDS, classes, None, ndims=nd, cross=(3, 3))
         cfg = gamma.Config.draw(random.Random(cfgseed), ndims=nd, payload="tame", dyadic=True)
         cfg.seed = cfgseed + 1000 * (i + 1)
+        if tool == "chk2plt":
+            # the same relative name holds a CHECKPOINT on one mesh with other data in every directory
+            from harness import gamma_chk
+            mesh = gamma_chk.nested_mesh([[1, 2], [1]])
+            lays = [{"state": {"file": [1, 2], "disk": {"1": [1], "2": [2]}}, "gradp": {"file": [1, 1], "disk": {"1": [2, 1]}},
+                     "ir": {"file": [1, 1], "disk": {"1": [1, 2]}}},
+                    {"state": {"file": [1], "disk": {"1": [1]}}, "gradp": {"file": [1], "disk": {"1": [1]}},
+                     "ir": {"file": [1], "disk": {"1": [1]}}}]
+            gamma_chk.write_checkpoint(os.path.join(dirs[dn], NAME), mesh, lays, cfg, ns=2, nghost=1)
+            continue
         gamma.write_plotfile(os.path.join(dirs[dn], NAME), ap, cfg)
         if tool in ("taste", "taste-read") and i % 2 == 1:
             # every second directory holds a DAMAGED plotfile (a binary file 8 bytes short)
@@ -268,6 +282,12 @@ def run_tool_history(chk, sc, cfgseed, tool):
                     # a plain run of the tool on a well-formed plotfile under its absolute name: it has to succeed
                     return "%s on the well-formed plotfile %s (absolute name, first run of the process) raised %s: %s" % (
                         tool, os.path.join("run_" + dn, NAME), type(e).__name__, str(e)[:150])
+        if tool in ("taste", "taste-read"):
+            # the reference verdicts are known: the undamaged directories (every even one) hold well-formed plotfiles
+            for i, dn in enumerate(names):
+                good = refs[dn] if tool == "taste" else refs[dn][0]
+                if i % 2 == 0 and not good:
+                    return "taste on the well-formed plotfile %s (absolute name, first run of the process) reports it bad" % os.path.join("run_" + dn, NAME)
         if len({core.jdump(r) for r in refs.values()}) < len(refs):
             raise core.MachineryError("the directories' plotfiles do not give distinct results for %s" % tool)
         os.chdir(dirs[sc["start"]])
